@@ -4,9 +4,9 @@ case: ( kind b c gz pattern ( (envname envvalue) ... ) file ( (path bytes) ... )
 All paths are relative to the case's private directory (the harness's cwd during the case)."""
 
 RULE = ("exhaustive part: base in {0,1,3} x count in {0..4} x every presence mask of pre-existing archives "
-        "over the indices base-1..base+count (the two never-touched neighbours included) x 7 pattern shapes "
+        "over the indices base-1..base+count (the two never-touched neighbours included) x 8 pattern shapes "
         "(index in file name, in a directory component, in both, repeated, behind a $ENV directory, inside a $ENV "
-        "variable name, .gz) with bystander files, count+2 successive write+roll operations, full recursive "
+        "variable name, .gz, .zst) with bystander files, count+2 successive write+roll operations, full recursive "
         "listing compared after every roll; then u32-edge bases (base+count around 2^32, incl. the remaining "
         "debug-overflow panic), the delete roller, and random cases (count <= 6, random masks, random "
         "contents incl. empty/binary, roll-without-file operations). non-trivial = at least one roll happens "
@@ -14,7 +14,7 @@ RULE = ("exhaustive part: base in {0,1,3} x count in {0..4} x every presence mas
         "distinct case line")
 ASSUMPTIONS = [
     "no OS error other than NotFound and EXDEV occurs (no permission problems, no directory sitting at an archive name)",
-    "gzip is observed through decompression in the harness (decompress(compress x) = x is flate2's contract)",
+    "gzip / zstd archives are observed through decompression in the harness (decompress(compress x) = x is the contract of flate2 / zstd; one abstract codec in the model)",
     "$ENV references in patterns are to variables whose values contain no '$', '{' or '}' (general expansion is C19)",
     "archive names are pairwise distinct and differ from the rolled file's path (true for every generated pattern)",
     "debug profile (overflow checks on), background_rotation feature off",
@@ -35,6 +35,7 @@ PATTERNS = [
     "$ENV{C07N{}}.log",
     "z/a.{}.gz",
     "arch/{}/a.{}.log",
+    "zs/a.{}.zst",
 ]
 
 
@@ -60,7 +61,7 @@ def mk(kind, b, c, pattern, file, present, ops, extra=()):
     init += [[file + ".bak", b"bak"], [pattern.replace("{}", "x").replace("$ENV{", "E").replace("}", ""), b"by1"],
              ["unrelated/deep/f.txt", b"by2"]]
     init += [list(e) for e in extra]
-    gz = 1 if pattern.endswith(".gz") else 0
+    gz = 1 if pattern.endswith((".gz", ".zst")) else 0     # compressed (gzip or zstd): one abstract codec in the model
     return [kind, b, c, gz, pattern, env, file, init, ops]
 
 
@@ -100,7 +101,8 @@ def cases(rng, tier):
     # active file and archives on DIFFERENT mounts (harness: `xm/` is a symlink into /dev/shm when
     # that is another device): rename fails with EXDEV, move_file falls back to copy + remove.
     # Contents shrink from roll to roll so that a destination that is not replaced wholesale shows.
-    for (pattern, file) in (("a.{}.log", "xm/app.log"), ("xm/a.{}.log", "app.log"), ("xm/z.{}.gz", "logs/cur.log")):
+    for (pattern, file) in (("a.{}.log", "xm/app.log"), ("xm/a.{}.log", "app.log"), ("xm/z.{}.gz", "logs/cur.log"),
+                            ("xm/z.{}.zst", "app.log")):
         for b in (0, 1):
             for c in (1, 2, 3):
                 for present in ([], [b], list(range(b, b + c))):
